@@ -282,8 +282,8 @@ type c38Model struct {
 	canon      []int       // stored canonical index: height -> block (c38None = no entry)
 	lookup     map[int]int // tx index -> block number of the stored lookup entry
 
-	// set when a block that is not on the chain of the head header became the head
-	// while the head header was ahead of the head block
+	// set when a block that is not on the chain of the highest canonical entry became
+	// the head while canonical entries existed above the head block
 	forkWhileAhead bool
 }
 
@@ -324,7 +324,16 @@ func (m *c38Model) isCanon(i int) bool {
 func (m *c38Model) switchHead(x int, exp *c38Exp) {
 	f := m.f
 	cur := m.headBlock
-	if m.headHeader != m.headBlock && !f.isAncestorOrSelf(x, m.headHeader) && !f.isAncestorOrSelf(m.headHeader, x) {
+	// top = block of the highest canonical entry (the head header, or the continuation
+	// that a re-import below it left above the new head)
+	top := m.headHeader
+	for h := len(m.canon) - 1; h > 0; h-- {
+		if m.canon[h] != c38None {
+			top = m.canon[h]
+			break
+		}
+	}
+	if top != m.headBlock && !f.isAncestorOrSelf(x, top) && !f.isAncestorOrSelf(top, x) {
 		m.forkWhileAhead = true
 	}
 	if f.parentOf(x) != cur {
@@ -984,9 +993,16 @@ func (s *c38Sys) checkEvents(o c38Op, exp c38Exp, oldCanon map[int]bool) error {
 	return nil
 }
 
+var c38Reported sync.Map
+
 // finding records a statement-level deviation under a class key (the exploration continues).
 func (s *c38Sys) finding(class, desc string) {
 	ops := append([]string{}, s.trail...)
+	// the prefix replays of Explore reach the same deviation again: report an operation list once
+	if _, dup := c38Reported.LoadOrStore(s.run+"|"+class+"|"+strings.Join(ops, ";"), struct{}{}); dup {
+		return
+	}
+	s.r.Outcome("finding/" + class)
 	s.r.Violation("C38:"+class, fmt.Sprintf("%s (exploration %s, ops %s)", desc, s.run, strings.Join(ops, ";")),
 		map[string]any{"explore": "C38-" + s.run, "ops": ops})
 }
